@@ -13,6 +13,9 @@ from .drive import Acc, function_hashes, jsonable
 
 VERIF = os.path.dirname(os.path.dirname(os.path.abspath(__file__)))
 EXIT_OK, EXIT_VIOLATION, EXIT_HARNESS = 0, 1, 3
+# VERIF_OUT (tools/try_seed_wt.sh only): evidence / replays of a trial run against a scratch
+# worktree go elsewhere, so that parallel trials never touch /verif/evidence.
+OUT = os.environ.get("VERIF_OUT") or VERIF
 
 
 def load_known():
@@ -72,7 +75,7 @@ def finalize(mod, tier, seed, results, wall, extra_acc=None, t_start=None):
             if hit is not None:
                 known_hits.append((key, rep.get("what", "")))
                 continue
-            rdir = os.path.join(VERIF, "replays", pid)
+            rdir = os.path.join(OUT, "replays", pid)
             os.makedirs(rdir, exist_ok=True)
             blob = dict(property=pid, job=label, obligation=cx["ob"], key=key, info=cx.get("info"),
                         model=cx.get("model"), what=rep.get("what"),
@@ -132,8 +135,8 @@ def finalize(mod, tier, seed, results, wall, extra_acc=None, t_start=None):
               assumptions=getattr(mod, "ASSUMPTIONS", []),
               wall_s=round(time.time() - t_start if t_start else wall, 2),
               violations=len(violations))
-    os.makedirs(os.path.join(VERIF, "evidence"), exist_ok=True)
-    with open(os.path.join(VERIF, "evidence", f"{pid}.json"), "w") as f:
+    os.makedirs(os.path.join(OUT, "evidence"), exist_ok=True)
+    with open(os.path.join(OUT, "evidence", f"{pid}.json"), "w") as f:
         json.dump(jsonable(ev), f, indent=1)
 
     print(f"[{pid} {tier}] paths={n_paths} obligations={n_ob} discharged={n_dis} inconclusive={n_inc} "
